@@ -225,9 +225,9 @@ def readonly(ctx, R="R-C18-readonly"):
         ws, _ = eff.writes_to(f, f.params[1])
         bad = [w for w in ws if False in w.flags]
         ctx.check(not bad, R, f, bad[0].stmt if bad else f.node, "%s.apply writes through the input only when in_place is true" % name,
-                  "%s.apply can modify the caller's array with in_place=False (%s)" % (name, ", ".join(sorted({w.how for w in bad}))))
+                  "%s.apply can modify the caller's array with in_place=False (%s)" % (name, ", ".join(sorted({w.how for w in bad}))), robust=True)
         ctx.check(len(ws) >= 1, R, f, f.node, "%s.apply does operate in place when allowed (the in_place flag is honoured)" % name,
-                  "%s.apply never works in place; in_place=True would be ignored" % name)
+                  "%s.apply never works in place; in_place=True would be ignored" % name, robust=True)
 
 
 def dither(ctx, R="R-C18-dither-independence"):
@@ -318,9 +318,9 @@ def fresh_and_pure_no_return(ctx, R, f):
         for t in tg:
             if astq.base_name(t) == s:
                 ctx.bad(R, f, n, "apply writes instance state (%s): the result of a call then depends on earlier calls on the same object, "
-                        "not only on the signal, coeff and the global seed" % astq.text(t), "apply keeps no state")
+                        "not only on the signal, coeff and the global seed" % astq.text(t), "apply keeps no state", robust=True)
         if isinstance(n, (ast.Global, ast.Nonlocal)):
-            ctx.bad(R, f, n, "apply writes module state", "apply keeps no state")
+            ctx.bad(R, f, n, "apply writes module state", "apply keeps no state", robust=True)
     ctx.ok(R, f.loc(), "%s writes no instance or module state" % f.short)
 
 
@@ -351,4 +351,4 @@ def empty_signal(ctx, R="R-C18-stencil"):
         hits = [h for h in hits if h not in shape_like]
         ctx.check(not hits, R, f, hits[0] if hits else f.node, "%s.apply only slices the arrays derived from the signal (defined for a signal of length 0)" % name,
                   "%s.apply indexes %s with a constant position along the sample axis: for an empty signal this raises IndexError although the "
-                  "transform of an empty signal is the empty signal" % (name, astq.text(hits[0]) if hits else ""))
+                  "transform of an empty signal is the empty signal" % (name, astq.text(hits[0]) if hits else ""), robust=True)
